@@ -261,11 +261,20 @@ def pp_post(c, v0, v1, r):
     }
 
 
-def _pp_native(c, p):
+def _pp_obj(c, p):
     from taurex.data.profiles.pressure.pressureprofile import SimplePressureProfile
     s = p['self']
-    o = SimplePressureProfile(nlayers=s['_nlayers'], atm_min_pressure=s['_atm_min_pressure'],
-                              atm_max_pressure=s['_atm_max_pressure'])
+    return SimplePressureProfile(nlayers=s['_nlayers'], atm_min_pressure=s['_atm_min_pressure'], atm_max_pressure=s['_atm_max_pressure'])
+
+
+def _pp_native(c, o, p):
+    """one pressure-profile object is recomputed many times in a retrieval: the range is moved the way the optimizer moves it
+    (the fitting-parameter setters), the layer count is that of the object"""
+    s = p['self']
+    if o.nLayers != s['_nlayers']:
+        o = _pp_obj(c, p)
+    o.minAtmospherePressure = s['_atm_min_pressure']
+    o.maxAtmospherePressure = s['_atm_max_pressure']
     o.compute_pressure_profile()
     q = dict(p)
     q['self'] = dict(s, pressure_profile_levels=o.pressure_profile_levels, pressure_profile=o.pressure_profile)
@@ -273,7 +282,7 @@ def _pp_native(c, p):
 
 
 PP = Unit('C11', 'taurex.data.profiles.pressure.pressureprofile:SimplePressureProfile.compute_pressure_profile',
-          _pp_params, pre=pp_pre, post=pp_post, native=_pp_native, bounds=[dict(n=2), dict(n=1)],
+          _pp_params, pre=pp_pre, post=pp_post, native_obj=_pp_obj, native_call=_pp_native, bounds=[dict(n=2), dict(n=1)],
           gen=lambda rng: dict(n=rng.randint(1, 6), pmin=10 ** rng.uniform(-6, 0), pmax=10 ** rng.uniform(1, 7)),
           inline=['nLevels', 'nLayers'], frame_attrs=[('self', 'pressure_profile_levels'), ('self', 'pressure_profile')],
           short='SimplePressureProfile.compute_pressure_profile', safety=('index',),
